@@ -7,7 +7,8 @@ again one level up.  Every level that can carry a modification of it
     T  type definition          type TT = Real(start = ..)
     D  declaration              TT x(start = ..)
     W* enclosing components in the declaring hierarchy (one per wrapper class)
-    E  extends clause           extends Base(l.x(start = ..))
+    E0 inner extends clause     Base: extends Root(l.x(start = ..))
+    E  extends clause           Mid: extends Base(l.x(start = ..))
     C  enclosing component      Mid m(l.x(start = ..))
     O  the component above it   Top t(m.l.x(start = ..))
 
@@ -32,7 +33,7 @@ QVAL = {"Leaf": 101, "Holder": 102, "Base": 103, "Top": 104, "Outer": 105}
 
 
 def level_names(depth):
-    return ["T", "D"] + ["W%d" % i for i in range(depth - 1)] + ["E", "C", "O"]
+    return ["T", "D"] + ["W%d" % i for i in range(depth - 1)] + ["E0", "E", "C", "O"]
 
 
 def literal(attr, k):
@@ -86,6 +87,11 @@ def build(attr, depth, present, named, shadow=False):
             h = Comp("h", "Holder", mods=[mk(["l", "x"], "W1")] if "W1" in present else [])
             base = Cls("Base", comps=[h, q("Base")])
             path = ["h", "l", "x"]
+    if "E0" in present:
+        # a second extends level below E: Base itself inherits the element from Root and modifies it
+        root = Cls("Root", comps=[c for c in base.comps if c.name != "q"])
+        classes.append(root)
+        base = Cls("Base", exts=[Ext("Root", [mk(path, "E0")])], comps=[q("Base")])
     classes.append(base)
     if shadow:
         # the class of component m has the same short name as the class that instantiates it (Lib.Top in Top):
@@ -120,6 +126,7 @@ def link_levels(lib_builder_args):
     for i in range(depth - 1):
         plen["W%d" % i] = (i + 1) + (0 if attr == "value" else 1)
     plen["E"] = depth + (0 if attr == "value" else 1)
+    plen["E0"] = plen["E"]
     plen["C"] = plen["E"]
     plen["O"] = plen["E"] + 1
     for lv in names:
@@ -146,6 +153,8 @@ def programs(tier):
                     if attr not in ("fixed", "unit"):
                         nameds += [lv for lv in present if lv != "T"]
                     for named in nameds:
+                        if "E0" in present and named is not None and named.startswith("W"):
+                            continue  # the wrapper components then live in Root, which declares no q
                         args = (attr, depth, frozenset(present), named)
                         lv_of_link = link_levels(args)
                         n = len(lv_of_link)
@@ -165,7 +174,7 @@ def programs(tier):
                                     flipsets.add(tuple(sorted(i for c in combo for i in c)))
                         for fl in sorted(flipsets):
                             jobs.append((attr, depth, tuple(sorted(present, key=names.index)), named, fl, False))
-                        if named in ("C", "O", "E"):
+                        if named in ("C", "O", "E", "E0"):
                             # same hierarchy with the class of m named like the class that contains m
                             jobs.append((attr, depth, tuple(sorted(present, key=names.index)), named, (), True))
     return jobs
